@@ -1,3 +1,3 @@
 import CobaVerif.Driver.Loop
--- stub: replaced when the C11 model exists
-def main : IO Unit := Coba.J.runLoop (fun _ => .error "C11 driver not implemented")
+import CobaVerif.Driver.C11
+def main : IO Unit := Coba.J.runLoop Coba.C11.Driver.handle
